@@ -4270,8 +4270,10 @@ let m_remove st a =
 
 (** val m_pop : state0 -> z option -> state0 * out0 **)
 
-let m_pop st = function
-| Some i0 ->
+let m_pop st i =
+  let i0 = match i with
+           | Some i0 -> i0
+           | None -> Zneg XH in
   let (lst, all) = st in
   (match py_pop i0 lst with
    | Some p ->
@@ -4283,7 +4285,6 @@ let m_pop st = function
          | None -> ((lst1, all), EIndexError))
       | None -> ((lst1, all), EValueError))
    | None -> (st, EIndexError))
-| None -> (st, ETypeError)
 
 (** val m_new : arg list -> state0 * out0 **)
 
